@@ -329,7 +329,7 @@ theorem fields_link {β : Type} (obs : DecProg.Out → β) (hobs : EofBlind obs)
       | .ok (fs, s') => ∀ st' new, Same st st' → CD chk s' st' → Aligned fds new →
           (∀ t, Shadow s t → ∃ t', iFields d fds new pre t = .ok (fs, t') ∧ Shadow s' t') →
           obs (runExact (k st' (accD ++ new)) s'.rest) = R
-      | .err e => R = obs (DecProg.fail st (errD e))
+      | .err e => errC (errD e) = e → R = obs (DecProg.fail st (errD e))
       | .panic => True
       | .hang => True) →
     obs (runExact (DecProg.fields chk (fds.map tripF) st accD k) s.rest) = R := by
@@ -424,7 +424,7 @@ theorem fields_link {β : Type} (obs : DecProg.Out → β) (hobs : EofBlind obs)
           simpa [List.append_assoc] using this
       · rw [runExact_read_short _ _ _ (by omega)]
         simp only [hl, if_false] at h
-        rw [h]
+        rw [h rfl]
         simp only [runExact]
         exact hobs _ _ _ _ rfl
 
@@ -469,7 +469,7 @@ theorem devs_link {β : Type} (obs : DecProg.Out → β) (hobs : EofBlind obs) (
       | .ok (dv, s') => ∀ st' new, Same st st' → CD chk s' st' → Quiet' s s' →
           (∀ t, Shadow s t → ∃ t', iDevs d new accC t = .ok (dv, t') ∧ Shadow s' t') →
           obs (runExact (k st' (accD ++ new)) s'.rest) = R
-      | .err e => R = obs (DecProg.fail st (errD e))
+      | .err e => errC (errD e) = e → R = obs (DecProg.fail st (errD e))
       | .panic => True
       | .hang => True) →
     obs (runExact (DecProg.devFields chk (s.look.descs.map descD) (dds.map tripD) st accD k) s.rest) = R := by
@@ -523,7 +523,7 @@ theorem devs_link {β : Type} (obs : DecProg.Out → β) (hobs : EofBlind obs) (
           exact hshadow t ((Quiet'.adv s dd.size).shadow ht)
       · rw [runExact_read_short _ _ _ (by omega)]
         simp only [hl, if_false, Bind.bind, Res.bind] at h
-        rw [h]; simp only [runExact]; exact hobs _ _ _ _ rfl
+        rw [h rfl]; simp only [runExact]; exact hobs _ _ _ _ rfl
     | some fdsc =>
       rw [hfd] at h
       simp only [Option.map_some, descD] at h ⊢
@@ -581,12 +581,12 @@ theorem devs_link {β : Type} (obs : DecProg.Out → β) (hobs : EofBlind obs) (
               simpa [List.append_assoc] using this
           · rw [runExact_read_short _ _ _ (by omega)]
             simp only [hl, if_false] at h
-            rw [h]; simp only [runExact]; exact hobs _ _ _ _ rfl
+            rw [h rfl]; simp only [runExact]; exact hobs _ _ _ _ rfl
       · have hv' : (!validBaseType fdsc.bt) = true := by simp [validBaseType, hv]
         have hv2 : btValid fdsc.bt = false := by simpa using hv
         simp only [hv2, Bool.not_false, if_true, runExact]
         unfold decodeDevField at h
         simp only [hv', if_true, Bind.bind, Res.bind] at h
-        rw [h]; rfl
+        rw [h rfl]; rfl
 
 end Fit.Link
